@@ -24,7 +24,7 @@ domain, unrelated names) is never reported. A sampled live family starts pairs o
 each to report exactly the other (real announce(), receive loops, get_known_services()); a passive witness socket on the mDNS group counts the response datagrams of each peer, and a listener \
 that reports nothing in 3 consecutive rounds although the witness saw the other peer's records at least twice per round is a violation (a single incomplete round is inconclusive). Escape/unescape: bounded-exhaustive over {a . \\ e-acute space} up to length 7 (quick) / 8 (thorough) plus random Unicode. non-trivial = history \
 with at least one peer announcement or an escape string containing a dot or backslash; distinct = hash of the history / string",
-        assumptions: &["attribute keys are non-empty and free of '='", "re-announcements repeat the same description", "TTLs are large (expiry is C20's subject), except that a peer may say goodbye with TTL 0 and advertise again at once"],
+        assumptions: &["attribute keys are non-empty and free of '='", "re-announcements repeat the same description, unless the peer said goodbye first", "TTLs are large (expiry is C20's subject), except that a peer may say goodbye with TTL 0 and advertise again at once"],
         exhaustive: false,
         min_distinct: 1000,
     }
@@ -191,12 +191,19 @@ pub fn history(ctx: &mut Ctx, idx: u64) {
     let mut expected_channel: Vec<InstanceInformation> = Vec::new();
     let steps = r.usize(npeers, npeers + 8);
     let ttl = 4500;
+    let on_wire: std::cell::RefCell<Vec<ResourceRecord<'static>>> = std::cell::RefCell::new(Vec::new());
     let case_log = |log: &Vec<String>| json!({"family": "history", "idx": idx, "service": service_s, "mode": mode, "steps": log});
     for step in 0..steps {
         let kind = if step < npeers { 0 } else { r.below(10) };
         let mut ingest = |bytes: &[u8], store: &mut ResourceRecordManager<'static>, ctx: &mut Ctx, log: &Vec<String>| {
             let res = monitor::guard(|| {
                 let pk = Packet::parse(bytes).map_err(|e| format!("{:?}", e))?;
+                // everything that crossed the wire, so that a peer's goodbye can name exactly the records it announced
+                for rec in pk.answers.iter().chain(pk.additional_records.iter()) {
+                    if rec.ttl > 0 {
+                        on_wire.borrow_mut().push(rec.clone().into_owned());
+                    }
+                }
                 match mode {
                     2 | 3 => rt.as_ref().unwrap().block_on(simple_mdns::verif_async::add_response_to_resources(pk, &service, &own, store, &mut achan)),
                     _ => add_response_to_resources(pk, &service, &own, store, &mut chan),
@@ -338,10 +345,31 @@ pub fn history(ctx: &mut Ctx, idx: u64) {
                     let k = r.usize(0, npeers - 1);
                     let fname = Name::new(&full_name(&peers[k].name, service_s)).unwrap().into_owned();
                     let mut ok = true;
+                    // half of the time the peer comes back with another description (other addresses, ports, attributes):
+                    // what is reported afterwards is the new description, nothing of the withdrawn one
+                    let changed = r.bool();
                     for t in [0u32, ttl] {
-                        let recs: Vec<_> = match peers[k].info(r.next()).into_records(&fname, t) {
-                            Ok(v) => v.into_iter().map(|x| x.into_owned()).collect(),
-                            Err(_) => { ok = false; break; }
+                        if t != 0 && changed {
+                            let name = peers[k].name.clone();
+                            peers[k] = gen_desc(&mut r, &name);
+                            ctx.count("goodbye_then_readvertised_with_another_description");
+                        }
+                        let recs: Vec<_> = if t == 0 && changed {
+                            // the goodbye of a peer that is about to change: every record it has announced so far, with TTL 0
+                            let mut v: Vec<ResourceRecord<'static>> = Vec::new();
+                            for rec in on_wire.borrow().iter().filter(|x| x.name == fname) {
+                                let mut g = rec.clone();
+                                g.ttl = 0;
+                                g.cache_flush = false;
+                                if !v.contains(&g) { v.push(g); }
+                            }
+                            if v.is_empty() { ok = false; break; }
+                            v
+                        } else {
+                            match peers[k].info(r.next()).into_records(&fname, t) {
+                                Ok(v) => v.into_iter().map(|x| x.into_owned()).collect(),
+                                Err(_) => { ok = false; break; }
+                            }
                         };
                         match announce_bytes(recs, &mut r) {
                             Ok(b) => ingest(&b, &mut store, ctx, &log),
